@@ -1129,6 +1129,21 @@ pub fn sweep_family(seed: u64, f: u64, out: &mut SweepOut) {
             doc = json!({ ["a", "b", "c", "k1"][i % 4]: doc, "s": i as i64 });
         }
     }
+    // names and strings that differ only in a run of blank space, next to names and strings that end in
+    // a backslash or a quote character: a query text that is rewritten before it is parsed (blank space
+    // squeezed, literals tracked by hand) selects another member than the same text parsed as it stands
+    let blank_family = f % 7 == 3;
+    const BLANK_NAMES: &[&str] = &["a\\", "p  q", "p q", "it's", " x", "  x", "q\"", "t\t\tu", "t\tu", "e\\'", "m   n", "m n"];
+    if blank_family {
+        let mut m = serde_json::Map::new();
+        for (i, n) in BLANK_NAMES.iter().enumerate() {
+            m.insert(n.to_string(), json!(i as i64));
+        }
+        let recs: Vec<Value> = (0..6).map(|_| json!({"t": *rng.pick(BLANK_NAMES), "u": *rng.pick(BLANK_NAMES)})).collect();
+        m.insert("k".to_string(), Value::Array(recs));
+        m.insert("d".to_string(), doc);
+        doc = Value::Object(m);
+    }
     let mut names_in = vec![];
     gen::names_of(&doc, &mut names_in);
     let g = QGen { names: &names_in, fancy: true, regex: f % 4 == 0, ext: true, safe_quotes: false, reenter: false, unknown_fn: false };
@@ -1142,6 +1157,18 @@ pub fn sweep_family(seed: u64, f: u64, out: &mut SweepOut) {
     for k in 0..23 {
         let t = rng.weighted(&[3, 4, 3]);
         let mut q = g.query(&mut rng, t);
+        if blank_family && k < 14 {
+            let mut lit = |rng: &mut Rng| {
+                let n = *rng.pick(BLANK_NAMES);
+                if rng.chance(1, 2) { gen::quote_single(n) } else { gen::quote_double(n) }
+            };
+            q = match rng.below(4) {
+                0 => format!("$[{}, {}]", lit(&mut rng), lit(&mut rng)),
+                1 => format!("$[{},{},  {}]", lit(&mut rng), lit(&mut rng), lit(&mut rng)),
+                2 => format!("$.k[?@.t == {} && @.u == {}]", lit(&mut rng), lit(&mut rng)),
+                _ => format!("$.k[?@.t == {}  ||  @.u != {}]", lit(&mut rng), lit(&mut rng)),
+            };
+        }
         if k >= 20 {
             // the path of an existing location, spelled as a plain chain where the names allow
             let loc = rng.pick(&all_locs);
